@@ -55,12 +55,14 @@ struct SliceWorld<S: Service> {
     sub_labels: std::collections::HashSet<usize>,
 }
 
-/// a flatbuffer loan: the title string is written at `loanf`, the entries (which carry the tag) at `send`;
-/// the builder may grow (and relocate the loaned chunk) in both phases
-struct FbLoan<S: Service> {
-    s: SampleMutUninit<S, Fb, ()>,
-    title: flatbuffers::WIPOffset<&'static str>,
-    k: usize,
+/// a flatbuffer loan.
+/// `Ready` (default): the whole content (title, k entries with a placeholder tag) is built and finished inside `loanf`, so
+/// every grow of the loan happens while its chunk lies in the publisher's newest segment; `send` writes the tag in place.
+/// `Late` (`loanf p l n late`): only the title is written at `loanf`, the entries at `send` — the loan grows again after
+/// other loans of the publisher may have moved the publisher to a newer segment.
+enum FbLoan<S: Service> {
+    Ready { s: iceoryx2::sample_mut::SampleMut<S, Fb, ()>, tag_positions: Vec<usize> },
+    Late { s: SampleMutUninit<S, Fb, ()>, title: flatbuffers::WIPOffset<&'static str>, k: usize },
 }
 
 /// what is remembered of a received flatbuffer sample: header values and all payload bytes
@@ -211,16 +213,29 @@ fn fb_class(before: (usize, usize), after: (usize, usize)) -> usize {
 
 const FB_TITLE_PAD: usize = 8;
 
+/// data_1 of entry i is i + 1: no field of an entry has its default value (tags are >= 1).  A field with the default value
+/// is omitted by the flatbuffer builder, its vtable slot is expected to be zero already — which the loaned memory does not
+/// guarantee (stale bytes of the moved header / of the previous user of the chunk): see the finding in DESIGN notes.
+/// `VERIF_FB_DEFAULTS=1` makes entry 0 carry data_1 = 0 to reproduce that.
+fn fb_first() -> i32 {
+    static V: std::sync::OnceLock<i32> = std::sync::OnceLock::new();
+    *V.get_or_init(|| if std::env::var("VERIF_FB_DEFAULTS").is_ok() { 0 } else { 1 })
+}
+
 /// `Some(tag)` when the bytes are a valid flatbuffer of the expected shape: title `L<l>:` + padding,
-/// k >= 1 entries, entry i = (i, tag)
+/// k >= 1 entries, entry i = (i + 1, tag)
 fn fb_decode(bytes: &[u8]) -> Option<u64> {
-    let root = flatbuffers::root::<UnboundedData>(bytes).ok()?;
+    let root = match flatbuffers::root::<UnboundedData>(bytes) {
+        Ok(r) => r,
+        Err(e) => { if std::env::var("VERIF_FBDEBUG").is_ok() { eprintln!("# fb invalid: {e:?} len {}", bytes.len()); } return None; }
+    };
+    if std::env::var("VERIF_FBDEBUG").is_ok() { eprintln!("# fb root: {root:?}"); }
     let entries = root.entries()?;
     let k = entries.len();
     if k == 0 { return None; }
     let tag = entries.get(0).data_2();
     for (i, e) in entries.iter().enumerate() {
-        if e.data_2() != tag || e.data_1() != i as i32 { return None; }
+        if e.data_2() != tag || e.data_1() != i as i32 + fb_first() { return None; }
     }
     let title = root.title()?;
     let (head, pad) = title.split_once(':')?;
@@ -229,9 +244,33 @@ fn fb_decode(bytes: &[u8]) -> Option<u64> {
     Some(tag)
 }
 
+/// k entries (i + 1, tag) and the root
+fn fb_fill<S: Service + 'static>(s: &mut SampleMutUninit<S, Fb, ()>, title: flatbuffers::WIPOffset<&'static str>, k: usize, tag: u64) -> flatbuffers::WIPOffset<UnboundedData<'static>> {
+    let b = s.flatbuffer_builder();
+    let mut entries = Vec::with_capacity(k);
+    for i in 0..k {
+        entries.push(Entry::create(b, &EntryArgs { data_1: i as i32 + fb_first(), data_2: tag }));
+    }
+    let entries = b.create_vector(&entries);
+    UnboundedData::create(b, &UnboundedDataArgs { title: Some(title), entries: Some(entries) })
+}
+
+/// positions (inside the finished payload bytes) of the data_2 field of every entry
+fn fb_tag_positions(bytes: &[u8]) -> Option<Vec<usize>> {
+    let root = flatbuffers::root::<UnboundedData>(bytes).ok()?;
+    let mut v = vec![];
+    for e in root.entries()?.iter() {
+        let vo = e._tab.vtable().get(Entry::VT_DATA_2) as usize;
+        if vo == 0 { return None; }
+        v.push(e._tab.loc() + vo);
+    }
+    Some(v)
+}
+
 /// header values first (a reused chunk may carry anything), then the bytes
 fn fb_read<S: Service>(s: &Sample<S, Fb, ()>) -> Option<(u64, u64, &[u8])> {
     let (po, ne) = (s.header().payload_offset(), s.header().number_of_elements());
+    if std::env::var("VERIF_FBDEBUG").is_ok() { eprintln!("# fb header: payload_offset {po} number_of_elements {ne}"); }
     if ne < po || ne > (1 << 24) { return None; }
     Some((po, ne, s.payload_bytes()))
 }
@@ -494,40 +533,57 @@ fn exec_fb<S: Service + 'static>(w: &mut FbWorld<S>, t: &[&str]) -> String {
         }
         "dsub" => match w.subs.remove(&n(t[1])) { Some(s) => { drop(s); "ok".into() } None => "none".into() },
         "loanf" | "loan" => match w.pubs.get(&n(t[1])) {
-            // loanf <p> <l> <n>: loan, then write the title (`L<l>:` + 8 bytes per entry to come)
+            // loanf <p> <l> <n> [late]: loan, write the title (`L<l>:` + 8 bytes per entry) and (unless late) the entries
             Some(_) if w.loans.contains_key(&(n(t[1]), n(t[2]))) => "dup".into(),
             Some(p) => match p.loan_flatbuffer() {
                 Ok(mut s) => {
                     let k = if t.len() > 3 { n(t[3]).max(1) } else { 1 };
+                    let late = t.len() > 4 && t[4] == "late";
                     let before = fb_place(&mut s);
                     let title = s.flatbuffer_builder().create_string(&format!("L{}:{}", t[2], "x".repeat(k * FB_TITLE_PAD)));
-                    let after = fb_place(&mut s);
-                    w.stat.loanf[fb_class(before, after)] += 1;
-                    w.stat.max_capacity = w.stat.max_capacity.max(after.1);
-                    w.loans.insert((n(t[1]), n(t[2])), FbLoan { s, title, k });
-                    "ok".into()
+                    if late {
+                        let after = fb_place(&mut s);
+                        w.stat.loanf[fb_class(before, after)] += 1;
+                        w.stat.max_capacity = w.stat.max_capacity.max(after.1);
+                        w.loans.insert((n(t[1]), n(t[2])), FbLoan::Late { s, title, k });
+                        "ok".into()
+                    } else {
+                        // placeholder tag, replaced by `send`
+                        let root = fb_fill(&mut s, title, k, 0xFB00_0000_0000_0000 + n(t[2]) as u64);
+                        let mid = fb_place(&mut s);
+                        let s = s.assume_init(root);
+                        // `finish` may grow once more: the final place of the payload area is taken from the finished sample
+                        let base = s.payload_bytes().as_ptr() as usize - s.header().payload_offset() as usize;
+                        w.stat.loanf[fb_class(before, (base, mid.1))] += 1;
+                        w.stat.max_capacity = w.stat.max_capacity.max(mid.1);
+                        match fb_tag_positions(s.payload_bytes()) {
+                            Some(tag_positions) => { w.loans.insert((n(t[1]), n(t[2])), FbLoan::Ready { s, tag_positions }); "ok".into() }
+                            None => { oracle_fail("flatbuffer built in a loan is not valid".to_string()); "ok".into() }
+                        }
+                    }
                 }
                 Err(e) => format!("err:{e:?}"),
             },
             None => "none".into(),
         },
         "send" => match w.loans.remove(&(n(t[1]), n(t[2]))) {
-            // send <p> <l> <tag>: k entries (i, tag), finish, send
-            Some(FbLoan { mut s, title, k }) => {
+            // send <p> <l> <tag>
+            Some(FbLoan::Ready { s, tag_positions }) => {
+                let tag = t[3].parse::<u64>().unwrap();
+                let (ptr, len) = { let b = s.payload_bytes(); (b.as_ptr() as *mut u8, b.len()) };
+                for pos in tag_positions {
+                    assert!(pos + 8 <= len);
+                    // the loaned memory belongs to this sample alone
+                    unsafe { std::ptr::copy_nonoverlapping(tag.to_le_bytes().as_ptr(), ptr.add(pos), 8) };
+                }
+                match s.send() { Ok(k) => format!("ok:{k}"), Err(e) => format!("err:{e:?}") }
+            }
+            Some(FbLoan::Late { mut s, title, k }) => {
                 let tag = t[3].parse::<u64>().unwrap();
                 let before = fb_place(&mut s);
-                let root = {
-                    let b = s.flatbuffer_builder();
-                    let mut entries = Vec::with_capacity(k);
-                    for i in 0..k {
-                        entries.push(Entry::create(b, &EntryArgs { data_1: i as i32, data_2: tag }));
-                    }
-                    let entries = b.create_vector(&entries);
-                    UnboundedData::create(b, &UnboundedDataArgs { title: Some(title), entries: Some(entries) })
-                };
+                let root = fb_fill(&mut s, title, k, tag);
                 let mid = fb_place(&mut s);
                 let s = s.assume_init(root);
-                // `finish` may grow once more: the final place of the payload area is taken from the finished sample
                 let base = s.payload_bytes().as_ptr() as usize - s.header().payload_offset() as usize;
                 w.stat.send[fb_class(before, (base, mid.1))] += 1;
                 w.stat.max_capacity = w.stat.max_capacity.max(mid.1);
@@ -635,6 +691,23 @@ fn list_resources(prefix: &str, node_dir: &str) -> String {
 
 impl Comp for PubSubComp {
     fn exec(&mut self, t: &[&str]) -> String {
+        if std::env::var("VERIF_FBDEBUG").is_ok() {
+            // show the panic message (the global hook is silent)
+            let r = std::panic::catch_unwind(std::panic::AssertUnwindSafe(|| self.exec_inner(t)));
+            return match r {
+                Ok(s) => s,
+                Err(e) => {
+                    let m = e.downcast_ref::<String>().cloned().or_else(|| e.downcast_ref::<&str>().map(|x| x.to_string())).unwrap_or("?".into());
+                    eprintln!("# panic in `{}`: {m}", t.join(" "));
+                    std::panic::resume_unwind(e)
+                }
+            };
+        }
+        self.exec_inner(t)
+    }
+}
+impl PubSubComp {
+    fn exec_inner(&mut self, t: &[&str]) -> String {
         if t[0] == "new" {
             self.w = AnyWorld::None;
             return match t[1] {
@@ -694,8 +767,11 @@ pub fn generate(a: &Args) -> Vec<Vec<String>> {
         // with a number of entries; the builder outgrows its chunk while the sample is loaned (Sender::grow), numbers
         // mostly grow so that the loan is relocated into a new segment while other samples are loaned / in flight / held
         let mut a2 = Args { mode: a.mode.clone(), seed: a.seed ^ 0xfb, cases: a.cases, len: a.len, exhaustive: 0, rest: a.rest.iter().filter(|x| *x != "fb").cloned().collect() };
-        a2.rest.retain(|x| x != "keep-dpub");
+        // `late`: the entries are written by `send` (the loan grows a second time, possibly after the publisher moved on to
+        // a newer segment); `keep-dpub`: publishers are dropped as in the base histories.  Both for experiments only.
+        a2.rest.retain(|x| x != "keep-dpub" && x != "late");
         let keep_dpub = a.rest.iter().any(|x| x == "keep-dpub");
+        let late = if a.rest.iter().any(|x| x == "late") { " late" } else { "" };
         let mut rng = Rng::new(a.seed ^ 0xf1a7b);
         let mut cases = generate(&a2);
         for c in cases.iter_mut() {
@@ -709,7 +785,7 @@ pub fn generate(a: &Args) -> Vec<Vec<String>> {
                 } else if l.starts_with("loan ") {
                     if rng.chance(35) { cur = (cur * 2).min(64); }
                     let k = if rng.chance(70) { cur } else { rng.range(1, cur) };
-                    *l = format!("loanf {} {k}", &l[5..]);
+                    *l = format!("loanf {} {k}{late}", &l[5..]);
                 }
             }
         }
